@@ -1292,6 +1292,7 @@ class Interp:
     def run_region(self, f, args, kwargs):
         """Fork mode -> merge mode boundary: run f predicated, then fork over its outcomes."""
         self.merge = True
+        self.ctx.region_ran = True
         region = Region()
         saved_region = self.region
         self.region = region
